@@ -25,7 +25,7 @@ OUT = os.path.join(ROOT, "out")
 HARNESS = os.path.join(ROOT, "harness")
 EVIDENCE = os.path.join(ROOT, "evidence")
 KNOWN = os.path.join(ROOT, "known_findings.txt")
-REPO = "/repo"
+REPO = os.environ.get("VERIF_REPO", "/repo")
 
 GOENV = dict(os.environ, GOFLAGS="-mod=mod", GOPROXY="off", GOSUMDB="off", GOTOOLCHAIN="local")
 TLC_JAR = "/opt/veriftools/tla/tla2tools.jar:/opt/veriftools/tla/CommunityModules-deps.jar"
@@ -96,7 +96,17 @@ class Run:
         if not os.path.exists(sumf):
             shutil.copy(os.path.join(REPO, "go.sum"), sumf)
         cmd = ["go", "build", "-tags", "verif"] + (["-race"] if race else []) + ["-o", out, "./cmd/vh"]
-        p = subprocess.run(cmd, cwd=HARNESS, env=GOENV, capture_output=True, text=True)
+        hdir = HARNESS
+        alt = os.environ.get("VERIF_REPO")
+        if alt:
+            # build against another checkout of inbucket (seeded/try.sh: a scratch worktree with a patch applied),
+            # leaving /repo alone: private copy of the harness module with its replace directive rewritten
+            hdir = os.path.join(self.work, "harness-alt")
+            if not os.path.isdir(hdir):
+                shutil.copytree(HARNESS, hdir)
+                gm = open(os.path.join(hdir, "go.mod")).read().replace("=> /repo", "=> " + alt)
+                open(os.path.join(hdir, "go.mod"), "w").write(gm)
+        p = subprocess.run(cmd, cwd=hdir, env=GOENV, capture_output=True, text=True)
         if p.returncode != 0:
             self.log("harness build failed:\n" + p.stdout + p.stderr)
             raise Inconclusive("harness does not build against /repo (a change that does not compile is not a property violation)")
